@@ -228,7 +228,7 @@ def combinatorial(ferm_op, n_modes, n_electrons):
             unique_int = (int_alpha * n_choose_beta) + int_beta
             basis_set[sigma] = unique_int
 
-    quop_matrix = np.zeros((2**n, 2**n), dtype=np.complex64)
+    quop_matrix = np.zeros((2**n, 2**n), dtype=np.complex128)
     cte = ferm_op_chemist.terms.pop(tuple()) if ferm_op_chemist.constant else 0.
     n_basis = len(basis_set)
     confs, ints = list(zip(*basis_set.items()))
